@@ -7,7 +7,12 @@ Next == UNCHANGED c
 \* counts : sequence of <<kind, name, count>> measured in the text
 Measured(P, kind, name) == LET hits == {j \in DOMAIN P.counts : P.counts[j][1] = kind /\ P.counts[j][2] = name} IN
                            IF hits = {} THEN 999999 ELSE P.counts[CHOOSE j \in hits : TRUE][3]
+\* tcounts : sequence of <<kind, owner, type parameter, count>>
+MeasuredT(P, kind, owner, tparam) == LET hits == {j \in DOMAIN P.tcounts : P.tcounts[j][1] = kind /\ P.tcounts[j][2] = owner /\ P.tcounts[j][3] = tparam} IN
+                                     IF hits = {} THEN 999999 ELSE P.tcounts[CHOOSE j \in hits : TRUE][4]
 Bad(P) == {<<pr[1], pr[2], Expected(P, pr[1], pr[2]), Measured(P, pr[1], pr[2])>> :
              pr \in {q \in Probes(P) : Expresses(P.lang, q[1]) /\ Expected(P, q[1], q[2]) # Measured(P, q[1], q[2])}}
-Report == LET P == Progs[c]  b == Bad(P) IN PrintT(ToJson([prog |-> P.id, probes |-> Cardinality(Probes(P)), bad |-> b]))
+          \cup {<<pr[1], pr[2] \o "." \o pr[3], ExpectedT(P, pr[1], pr[2], pr[3]), MeasuredT(P, pr[1], pr[2], pr[3])>> :
+                 pr \in {q \in TProbes(P) : ExpressesT(P.lang, q[1]) /\ ExpectedT(P, q[1], q[2], q[3]) # MeasuredT(P, q[1], q[2], q[3])}}
+Report == LET P == Progs[c]  b == Bad(P) IN PrintT(ToJson([prog |-> P.id, probes |-> Cardinality(Probes(P)) + Cardinality(TProbes(P)), bad |-> b]))
 =============================================================================
